@@ -32,7 +32,7 @@ func init() {
 	}
 }
 
-var c12Trans = []string{"lowercase", "uppercase", "urlDecode", "trim", "removeWhitespace", "compressWhitespace", "hexEncode", "base64Encode", "length", "removeNulls", "sha1", "htmlEntityDecode", "removeComments"}
+var c12Trans = []string{"lowercase", "uppercase", "urlDecode", "trim", "removeWhitespace", "compressWhitespace", "hexEncode", "base64Encode", "length", "removeNulls", "sha1", "htmlEntityDecode", "removeComments", "hexDecode", "hexDecode", "base64Decode"}
 
 var c12Static = []string{"ARGS_GET", "ARGS_GET:a", "ARGS_GET:b", "ARGS_GET:/^a/", "ARGS_GET:/./", "ARGS_GET|!ARGS_GET:x", "ARGS_GET|!ARGS_GET:a", "ARGS", "ARGS:a", "ARGS|!ARGS:x",
 	"ARGS_NAMES", "ARGS_GET_NAMES", "ARGS_POST", "ARGS_POST:a", "ARGS_POST|!ARGS_POST:x", "REQUEST_HEADERS", "REQUEST_HEADERS:x-a", "REQUEST_HEADERS|!REQUEST_HEADERS:host",
@@ -101,7 +101,7 @@ func c12Gen(t *verifrt.Tape) *c12Scenario {
 		sc.Rules = append(sc.Rules, r)
 	}
 	names := []string{"a", "a", "a", "b", "x", "A", "ab"}
-	vals := []string{"Ab", "aB", "AB", "ab", "Q%41", " x ", "a+B", "Ab", "<!--c-->Z", "&amp;"}
+	vals := []string{"Ab", "aB", "AB", "ab", "Q%41", " x ", "a+B", "Ab", "<!--c-->Z", "&amp;", "4142", "4a4B", "QUI="}
 	q := func() string {
 		var ps []string
 		for i, n := 0, 1+t.Draw(6); i < n; i++ {
